@@ -186,6 +186,32 @@ def aliasOf (cfg : Cfg) (p : Parsed) (name : Str) : Str :=
   (if p.surface.isSome then ['G'] else []) ++ basename cfg p name ++
     (if ch ≥ 0 then List.replicate (ch.toNat + 1) 'I' else List.replicate ((-ch).toNat) 'M')
 
+/-- Python `str.replace(old, new)` for a non-empty `old` (left to right, non-overlapping) -/
+def replaceStr (old new : Str) : Nat → Str → Str
+  | 0, s => s
+  | _, [] => []
+  | fuel+1, s@(c :: rest) =>
+    if old.isEmpty then s else
+    if old.isPrefixOf s then new ++ replaceStr old new fuel (s.drop old.length) else c :: replaceStr old new fuel rest
+
+def upperStr (s : Str) : Str := s.map Char.toUpper
+
+/-- the replacement table built inside `Species.alias`: every symbol of naunet's periodic / isotope tables whose
+    upper-case spelling is one of the configured elements, in table order, as (UPPER, Symbol) -/
+def aliasRepl (cfg : Cfg) : List (Str × Str) :=
+  (Tables.massNumbers.map (·.1.toList)).filterMap fun sym =>
+    if upperStr sym ∈ cfg.elements then some (upperStr sym, sym) else none
+
+/-- the basename after the upper-case → standard-symbol replacements, applied one after another to the whole basename -/
+def aliasBase (cfg : Cfg) (b : Str) : Str :=
+  (aliasRepl cfg).foldl (fun acc kv => replaceStr kv.1 kv.2 (acc.length + 1) acc) b
+
+/-- `Species.alias`: optional `G`, the (re-spelled) basename, then `I`×(charge+1) or `M`×|charge| -/
+def aliasFull (cfg : Cfg) (p : Parsed) (name : Str) : Str :=
+  let ch := charge name
+  (if p.surface.isSome then ['G'] else []) ++ aliasBase cfg (basename cfg p name) ++
+    (if ch ≥ 0 then List.replicate (ch.toNat + 1) 'I' else List.replicate ((-ch).toNat) 'M')
+
 def massNumber (p : Parsed) : Nat :=
   (p.counts.map fun (el, n) => n * (((Tables.massNumbers.find? (·.1.toList == el)).map (·.2)).getD 0)).sum
 
